@@ -1,6 +1,6 @@
 /-
 mime.go (`sortedMimes`, `insertMime`, `trimOWS`), response.go:84 `Response.EntityWriter`,
-entity_accessors.go:70 `accessorAt` — the code as it is after the repairs 7e00ed6 and 355f38b.
+entity_accessors.go:70 `accessorAt` — the code as it is after the repairs 7e00ed6, 355f38b and 8b400b4.
 
 Qualities.  `strconv.ParseFloat` is modelled on decimal literals `D+`, `D+.`, `D*.D{1,3}` only
 (`parseQ`, thousandths as `Nat`: exact, and order-isomorphic to the float64 values as long as the
@@ -11,12 +11,15 @@ C05, DESIGN 4.4); `.5` and `1.` are accepted by ParseFloat and are modelled.
 
 Registry.  `entityAccessRegistry.accessors` is a Go map; the model has its key list.  A writer is
 identified with its registration key (the built-in accessors and the ones the harness registers
-write their key as Content-Type).  `accessorAt` falls back to "the first key, in map iteration
-order, that is a substring of the argument": the model returns the LIST OF ALL POSSIBLE answers
-(`[]` = not found, which does not depend on the iteration order).
+write their key as Content-Type).  `accessorAt` falls back to the reverse lookup: among the keys
+that occur in the argument, the one whose first occurrence is earliest, the longer of two that
+start at the same position (`Str.firstLongest`, Model/Entity.lean — the same function the entity READ
+side uses; since 8b400b4 the iteration order of the map cannot show).  The answer stays a list:
+`[]` = not found, otherwise one key (`Mime.accessorAt_function`: any two elements are equal).
 -/
 import Restful.Go.Str
 import Restful.Model.Detect
+import Restful.Model.Entity
 namespace Restful
 namespace Mime
 open Str
@@ -78,9 +81,10 @@ def insertValid (sorted : List Mime) (each : Str) : List Mime :=
 /-- mime.go:28 `sortedMimes` -/
 def sortedMimes (accept : Str) : List Mime := (split ',' accept).foldl insertValid []
 
-/-- entity_accessors.go:70 `accessorAt`: all writers (keys) the call may return; `[]` = `ok == false` -/
+/-- entity_accessors.go:70 `accessorAt`: the writer (key) the call returns — the exact key, else
+    the key that occurs first in the value, the longest of those that start there; `[]` = `ok == false` -/
 def accessorAt (reg : List Str) (mime : Str) : List Str :=
-  if reg.contains mime then [mime] else reg.filter (fun k => containsSub k mime)
+  if reg.contains mime then [mime] else reg.filter (firstLongest reg mime)
 
 /-- response.go:87-93, the inner loop over `routeProduces` for one accepted media type -/
 def walkProduces (reg : List Str) (media : Str) : List Str → List Str
@@ -121,7 +125,7 @@ inductive Branch where
   | walk | acceptKey | default | produces | none
   deriving DecidableEq, Repr
 
-/-- response.go:84 `EntityWriter`: the possible writers and the branch; `[]` = `(nil, false)`, i.e.
+/-- response.go:84 `EntityWriter`: the writer and the branch; `[]` = `(nil, false)`, i.e.
     `WriteHeaderAndEntity` answers 406 -/
 def entityWriterTagged (accept : Str) (produces reg : List Str) (dflt : Str) : List Str × Branch :=
   -- a missing Accept header is read as `*/*`, as the router does (repair of F07); the raw-header
